@@ -292,7 +292,9 @@ def gen_spec(R, *, n_lf=None, hc=False, small=False, kinds=None, vrl=None, rows=
         for what, arg in seq:
             kind = what if what != 'other' else arg
             o = {'kind': kind, 'attrs': {}, 'set_name': tag, 'origin_reference': None}
-            if tag is None and R.random() < 0.12:
+            if kind != 'origin' and R.random() < 0.1:
+                o['set_name'] = (tag or 'S') + '-2'      # a second set of the type in the logical file
+            elif tag is None and R.random() < 0.12:
                 o['set_name_arg'] = ''          # set_name='' is passed to the call: an empty name is no name (the unnamed set)
             base = {'origin': 'ORG', 'channel': 'CH', 'frame': 'FR'}.get(kind, kind[:3].upper())
             if kind == 'channel' and arg[1] == 0 and arg[0] > 0 and R.random() < 0.4:
@@ -448,6 +450,7 @@ def gen_spec(R, *, n_lf=None, hc=False, small=False, kinds=None, vrl=None, rows=
             lf['noformat'].append((R.choice(nfs), payload))
         spec['lfs'].append(lf)
     spec['object_routes'] = R.random() < 0.25
+    spec['edit_passed_lists'] = R.random() < 0.3
     # one structured array / HDF5 file may serve all frames of all logical files (each takes its own fields)
     data_kinds = ['inline', 'inline', 'dict', 'struct', 'struct', 'hdf5']
     if fastpath:
@@ -511,6 +514,16 @@ class DatasetNameCollision(Exception):
     pass
 
 
+def _note_lists(v, acc):
+    if isinstance(v, list):
+        acc.append(v)
+        for x in v:
+            _note_lists(x, acc)
+    elif isinstance(v, tuple):
+        for x in v:
+            _note_lists(x, acc)
+
+
 def build(spec):
     """-> Built (df, handles per logical file, data dict per logical file); exceptions propagate"""
     b = Built()
@@ -524,6 +537,8 @@ def build(spec):
         b.df = DLISFile(set_identifier=s['set_identifier'], sul_sequence_number=s['sul_sequence_number'],
                         max_record_length=s['max_record_length'])
     b.handles = []
+    passed_lists = []      # every list object handed to the library as (part of) the value of a multi-valued attribute
+    multivalued_of = {k: {row[1] for row in ATTRS[KINDS[k][1]] if row[4]} for k in KINDS}
     dsn_seen = {}
     b.data = {}
     b.arrays = []      # (lf index, object index, array as handed to the package)
@@ -556,6 +571,8 @@ def build(spec):
                                                                else AttrSetup(units=a['units']))
                     continue
                 v = _resolve(a['v'], b.handles)
+                if pyname in multivalued_of.get(o['kind'], ()):
+                    _note_lists(v, passed_lists)      # (a list given to a single-valued attribute is kept as it is: not noted)
                 if a['route'] == 'later' and o['kind'] not in ('origin',) and pyname not in ('index_type',):
                     later.append((pyname, v, a['units']))       # assigned after creation through .value / .units
                     continue
@@ -607,6 +624,14 @@ def build(spec):
         if kind == 'struct' and len({a.shape[0] for a in b.data.values()}) > 1:
             raise ValueError('generator: structured source needs one row count')
         b.data = make_source(kind, b.data, spec['write'].get('source_opts', {}))
+    if spec.get('edit_passed_lists'):
+        # the caller goes on using the lists it passed (cumulative selections, scratch lists): what the objects hold is
+        # what was passed at the time of the call
+        for lst in passed_lists:
+            first = lst[0] if lst else None
+            lst.clear()
+            if first is not None:
+                lst.extend([first, first, first])
     return b
 
 
@@ -721,7 +746,8 @@ def describe(spec):
         if isinstance(v, (int, str, bool)) or v is None:
             return v
         return repr(v)
-    d = {'sul': spec['sul'], 'hc': spec.get('hc', False), 'write': spec['write'], 'logical_files': []}
+    d = {'sul': spec['sul'], 'hc': spec.get('hc', False), 'write': spec['write'], 'logical_files': [],
+         'lists_passed_as_values_edited_by_the_caller_before_the_write': bool(spec.get('edit_passed_lists'))}
     for lf in spec['lfs']:
         objs = []
         for o in lf['objects']:
@@ -859,5 +885,20 @@ def run_framing_stream(prop, tier, chk, model, bres):
                     if rep != want:
                         chk.fail('whole-file:records-differ', {'index': i, 'spec': describe(spec)},
                                  'reassembled records differ from the records the writer was given (lr-tap)')
+                    elif rep.startswith('ok'):
+                        # ... and the writer was given every record the specification calls for (counted from the
+                        # specification, not from the tap): one per frame row written, one per no-format packet, one per
+                        # logical file header and per non-empty set
+                        from harness import content as _content
+                        _sim, _exp = _content.expected(spec)
+                        want_i = sum(len(E['noformat']) + sum(len(fr['rows']) for fr in E['frames']) for E in _exp)
+                        want_e = sum(1 + len({(k[0], k[1]) for k in E['objects']}) for E in _exp)
+                        recs_ = [x for x in rep[3:].split(';') if x and x != '-']
+                        got_i = sum(1 for x in recs_ if x.startswith('0:'))
+                        got_e = sum(1 for x in recs_ if x.startswith('1:'))
+                        if (got_i, got_e) != (want_i, want_e):
+                            chk.fail('whole-file:record-count', {'index': i, 'spec': describe(spec)},
+                                     f'the file holds {got_e} explicitly and {got_i} indirectly formatted records; the specification '
+                                     f'calls for {want_e} and {want_i}')
     finally:
         shutil.rmtree(tmp, ignore_errors=True)
